@@ -37,12 +37,12 @@ pub fn crc16_step(state: u16, byte: u8) -> u16 {
 
 /// Rice "zig-zag" folding of a signed residual into an unsigned code
 pub fn zigzag(r: i64) -> u64 {
-    if r < 0 { (((-(r + 1)) as u64) << 1) | 1 } else { (r as u64) << 1 }
+    if r < 0 { ((-(r + 1)) as u64) * 2 + 1 } else { (r as u64) * 2 }
 }
 
 /// inverse of `zigzag`
 pub fn unzigzag(u: u64) -> i64 {
-    if u & 1 == 1 { -((u >> 1) as i64) - 1 } else { (u >> 1) as i64 }
+    if u % 2 == 1 { -((u / 2) as i64) - 1 } else { (u / 2) as i64 }
 }
 
 /// partition order `po` is legal for a block of `bs` samples predicted with `order` warm-up samples:
